@@ -68,6 +68,17 @@ struct HistEngine : Engine {
 			if (!itmz_corpus().empty() && w.chance(1, 3)) { docs[(size_t)opml_doc] = itmz_corpus()[w.below(itmz_corpus().size())]; import_ext = X_PARSE_ITMZ; }
 			else docs[(size_t)opml_doc] = opml_corpus()[w.below(opml_corpus().size())];
 		}
+		// one plan in ten is "one engine, several documents" on purpose: the first text carries metadata that configures the conversion (language, quotes
+		// language, base header level, css, title), the second one carries none and is sensitive to exactly those settings
+		bool one_engine_many_docs = w.chance(1, 10);
+		if (one_engine_many_docs) {
+			while (docs.size() < 2) { docs.push(std::string()); ndocs++; }
+			DocOpts plain = dopt; plain.meta = false; plain.toc = false;
+			static const char * langs[] = {"de", "fr", "sv", "es", "nl"};
+			docs[(size_t)0] = std::string("Title: configured document\nLanguage: ") + langs[w.below(5)] + "\nQuotes Language: " + (w.chance(1, 2) ? "german" : "french") + "\nBase Header Level: " + std::to_string(2 + w.below(2)) +
+							  "\nCSS: style.css\nHTML Header: <!-- h -->\n\n" + gen_doc(w, plain);
+			docs[(size_t)1] = "# Heading\n\n\"quoted\" and 'single' text[^a] with -- dashes...\n\n[^a]: a note \"in quotes\"\n\n" + gen_doc(w, plain);
+		}
 		if (w.chance(1, 12)) {
 			// swarm: documents nested beyond the parser's depth guard (1000 levels) - legal input that makes the guard itself part of the history
 			int nd = (int)w.range(1, 2);
@@ -134,6 +145,15 @@ struct HistEngine : Engine {
 		bool use_eng = w.chance(3, 4), use_noise = w.chance(2, 3), use_pool = w.chance(1, 2), use_pkg = w.chance(1, 4);
 		int guard = 0;
 		auto fmt_for = [&]() { return gen_text_format(w); };
+		if (one_engine_many_docs && opml_doc != 0 && opml_doc != 1) {
+			unsigned long ext = X_SMART | X_NOTES | (w.chance(1, 2) ? X_COMPLETE : 0);
+			Json c = Json::object(); c["k"] = "E_CREATE"; c["slot"] = 0; c["doc"] = 0; c["ext"] = (int64_t)ext; c["with"] = w.chance(1, 2) ? "string" : "dstring"; ops.push(c);
+			Json a = Json::object(); a["k"] = w.chance(1, 2) ? "E_CONVERT" : "E_HAS_META"; a["slot"] = 0; if (a.gets("k") == "E_CONVERT") { a["fmt"] = fmt_for(); a["env"] = gen_env(en); } ops.push(a);
+			Json t = Json::object(); t["k"] = "E_SET_TEXT"; t["slot"] = 0; t["doc"] = 1; ops.push(t);
+			Json b = Json::object(); b["k"] = "E_CONVERT"; b["slot"] = 0; b["fmt"] = w.chance(1, 2) ? FMT_HTML : fmt_for(); b["env"] = gen_env(en); ops.push(b);
+			sl[0].live = true; sl[0].doc = 1; sl[0].parsed = true; sl[0].exported = true;
+			use_eng = true;
+		}
 		while ((int)ops.size() < target && guard++ < 500) {
 			Json o = Json::object();
 			unsigned k = (unsigned)w.below(100);
